@@ -250,6 +250,10 @@ pub async fn copy_bidi(ctx: ContextRef, params: &IoParams) -> Result<(), Error> 
     let frames = ctx_lock.take_frames();
     let client_stat = ctx_lock.props().client_stat.clone();
     let server_stat = ctx_lock.props().server_stat.clone();
+    // the tunnel is as old as its establishment, not as the connection it arrived on: a slow
+    // handshake or upstream connect must not count as idle time
+    client_stat.touch();
+    server_stat.touch();
     #[cfg(feature = "metrics")]
     let client_label = ctx_lock.props().listener.clone();
     #[cfg(feature = "metrics")]
